@@ -2042,8 +2042,9 @@ def convert_pad(op: Operation, arch, nng):
         zero_tens = create_const_tensor(
             op.name + "_top", shape.as_list(), ofm.dtype, shape.elements() * [pad_value], quantization=quant
         )
-        # If top/bottom or left/right are equal, the const tensors can be allocated to the same address
-        zero_tens.equivalence_id = create_equivalence_id(tuple(zero_tens.values))
+        # If top/bottom or left/right are equal, the const tensors can be allocated to the same address (the element type is part of
+        # the key: equal values of another type have another size)
+        zero_tens.equivalence_id = create_equivalence_id((zero_tens.dtype, tuple(zero_tens.values)))
         create_avg_pool_for_concat(op, op.name + "_top", zero_tens, shape, shp0)
     if bottom > 0:
         shape = Shape4D(1, bottom, ofm_shape.width, ofm_shape.depth)
@@ -2054,7 +2055,7 @@ def convert_pad(op: Operation, arch, nng):
             shape.elements() * [pad_value],
             quantization=quant,
         )
-        zero_tens.equivalence_id = create_equivalence_id(tuple(zero_tens.values))
+        zero_tens.equivalence_id = create_equivalence_id((zero_tens.dtype, tuple(zero_tens.values)))
         create_avg_pool_for_concat(
             op, op.name + "_bottom", zero_tens, shape, shp0.with_height(ofm_shape.height - bottom)
         )
@@ -2063,14 +2064,14 @@ def convert_pad(op: Operation, arch, nng):
         zero_tens = create_const_tensor(
             op.name + "_left", shape.as_list(), ofm.dtype, shape.elements() * [pad_value], quantization=quant
         )
-        zero_tens.equivalence_id = create_equivalence_id(tuple(zero_tens.values))
+        zero_tens.equivalence_id = create_equivalence_id((zero_tens.dtype, tuple(zero_tens.values)))
         create_avg_pool_for_concat(op, op.name + "_left", zero_tens, shape, shp_top)
     if right > 0:
         shape = Shape4D(1, ifm_shape.height, right, ofm_shape.depth)
         zero_tens = create_const_tensor(
             op.name + "_right", shape.as_list(), ofm.dtype, shape.elements() * [pad_value], quantization=quant
         )
-        zero_tens.equivalence_id = create_equivalence_id(tuple(zero_tens.values))
+        zero_tens.equivalence_id = create_equivalence_id((zero_tens.dtype, tuple(zero_tens.values)))
         create_avg_pool_for_concat(
             op, op.name + "_right", zero_tens, shape, shp_top.with_width(ofm_shape.width - right)
         )
